@@ -9,6 +9,10 @@ package fasthttp
 //         re-read into a fresh RequestHeader, into a RequestHeader that has parsed all the
 //         previous requests, and by a real server over one keep-alive connection; the
 //         cookies the server side lists are compared with the jar.
+//   object history: every response cookie is also produced on a Cookie OBJECT that held another
+//         cookie before (all attributes set, serialised) and was refilled through Reset+setters,
+//         CopyTo, Parse/ParseBytes and ResponseHeader.Cookie: its serialisation and getters
+//         must equal those of a fresh object filled the same way.
 // Tokens: "^" stands for CR, "$" for LF.
 
 import (
@@ -78,6 +82,12 @@ func c06S(s string) string {
 // specification distinguishes (SameSite(None) and Partitioned also set Secure / Path).
 func c06Build(v *c06Vec, variant int) *Cookie {
 	c := &Cookie{}
+	c06Fill(c, v, variant)
+	return c
+}
+
+// c06Fill calls the setters on c (which must be in the Reset state).
+func c06Fill(c *Cookie, v *c06Vec, variant int) {
 	if v.Early {
 		c.SetSameSite(CookieSameSite(v.SameSite))
 		c.SetPartitioned(v.Partitioned)
@@ -110,7 +120,110 @@ func c06Build(v *c06Vec, variant int) *Cookie {
 		c.SetSameSite(CookieSameSite(v.SameSite))
 		c.SetPartitioned(v.Partitioned)
 	}
-	return c
+}
+
+// ---- object history: a Cookie object that held ANOTHER cookie before (every attribute set,
+// serialised) and is then refilled must be indistinguishable from a fresh object.
+
+type c06View struct {
+	Wire, Key, Value, Domain, Path string
+	Expire                         time.Time
+	MaxAge, SameSite               int
+	Secure, HTTPOnly, Partitioned  bool
+}
+
+func c06ViewOf(c *Cookie) c06View {
+	return c06View{
+		Wire: string(c.Cookie()), Key: string(c.Key()), Value: string(c.Value()), Domain: string(c.Domain()),
+		Path: string(c.Path()), Expire: c.Expire(), MaxAge: c.MaxAge(), SameSite: int(c.SameSite()),
+		Secure: c.Secure(), HTTPOnly: c.HTTPOnly(), Partitioned: c.Partitioned(),
+	}
+}
+
+func (a c06View) equal(b c06View) bool {
+	return a.Wire == b.Wire && a.Key == b.Key && a.Value == b.Value && a.Domain == b.Domain && a.Path == b.Path &&
+		a.Expire.Equal(b.Expire) && a.MaxAge == b.MaxAge && a.SameSite == b.SameSite && a.Secure == b.Secure &&
+		a.HTTPOnly == b.HTTPOnly && a.Partitioned == b.Partitioned
+}
+
+var c06T0 = time.Date(2027, time.January, 2, 3, 4, 5, 0, time.UTC)
+
+// c06Dirty makes c hold an unrelated cookie with every attribute set, serialised twice (once
+// with an expiry, once with max-age), as a pooled / long-lived Cookie object would.
+func c06Dirty(c *Cookie) {
+	c.Reset()
+	c.SetKey("oldkey")
+	c.SetValue("oldvalue")
+	c.SetDomain("old.example")
+	c.SetPath("/old/path")
+	c.SetExpire(c06T0)
+	c.SetSecure(true)
+	c.SetHTTPOnly(true)
+	c.SetSameSite(CookieSameSiteStrictMode)
+	c.SetPartitioned(true)
+	_ = c.Cookie()
+	c.SetMaxAge(77)
+	_ = c.String()
+	c.SetMaxAge(0)
+	_ = c.Cookie()
+}
+
+// c06History refills a dirty object through every refill path and compares it with a fresh
+// object filled the same way. Returns "" or a message.
+func c06History(v *c06Vec, n int, dirty *Cookie) string {
+	fresh := c06Build(v, n)
+	vf := c06ViewOf(fresh)
+	wire := []byte(vf.Wire)
+
+	// (1) Reset + setters
+	c06Dirty(dirty)
+	dirty.Reset()
+	c06Fill(dirty, v, n)
+	if vd := c06ViewOf(dirty); !vf.equal(vd) {
+		return fmt.Sprintf("Reset+setters: a fresh Cookie shows %+v, a reused one %+v", vf, vd)
+	}
+	// (2) CopyTo from a fresh cookie
+	c06Dirty(dirty)
+	dirty.CopyTo(fresh)
+	if vd := c06ViewOf(dirty); !vf.equal(vd) {
+		return fmt.Sprintf("CopyTo: the source shows %+v, the reused destination %+v", vf, vd)
+	}
+	// (3) ParseBytes / Parse of the serialised cookie
+	var p0 Cookie
+	err0 := p0.ParseBytes(append([]byte(nil), wire...))
+	c06Dirty(dirty)
+	var errD error
+	if n&1 == 0 {
+		errD = dirty.ParseBytes(append([]byte(nil), wire...))
+	} else {
+		errD = dirty.Parse(string(wire))
+	}
+	if (err0 == nil) != (errD == nil) {
+		return fmt.Sprintf("Parse(%q): fresh object: %v, reused object: %v", wire, err0, errD)
+	}
+	if err0 == nil {
+		if v0, vd := c06ViewOf(&p0), c06ViewOf(dirty); !v0.equal(vd) {
+			return fmt.Sprintf("Parse(%q): a fresh Cookie shows %+v, a reused one %+v", wire, v0, vd)
+		}
+	}
+	// (4) ResponseHeader.Cookie(c): fill by name from a response header
+	var h ResponseHeader
+	h.SetCookie(fresh)
+	var q0 Cookie
+	q0.SetKeyBytes(fresh.Key())
+	ok0 := h.Cookie(&q0)
+	c06Dirty(dirty)
+	dirty.SetKeyBytes(fresh.Key())
+	okD := h.Cookie(dirty)
+	if ok0 != okD {
+		return fmt.Sprintf("ResponseHeader.Cookie(%q): fresh object found=%v, reused object found=%v", fresh.Key(), ok0, okD)
+	}
+	if ok0 {
+		if v0, vd := c06ViewOf(&q0), c06ViewOf(dirty); !v0.equal(vd) {
+			return fmt.Sprintf("ResponseHeader.Cookie(%q): a fresh Cookie shows %+v, a reused one %+v", fresh.Key(), v0, vd)
+		}
+	}
+	return ""
 }
 
 func c06RespKey(v *c06Vec) string {
@@ -216,7 +329,11 @@ func c06SamePieces(a, b []byte) bool {
 	return true
 }
 
-func c06Resp(v *c06Vec, n int) {
+func c06Resp(v *c06Vec, n int, dirty *Cookie) {
+	if m := c06History(v, n, dirty); m != "" {
+		vfViol("c06:"+c06RespKey(v)+":object-history", m, vfRec{"vec": v})
+		return
+	}
 	c := c06Build(v, n)
 	wire := append([]byte(nil), c.Cookie()...)
 	if bytes.ContainsAny(wire, "\r\n") {
@@ -456,6 +573,7 @@ func TestVerifC06Cookie(t *testing.T) {
 	vfOpen(t)
 	evals, nontriv, nresp, nreq := 0, 0, 0, 0
 	var reused RequestHeader
+	var dirtyCookie Cookie
 	var live []c06LiveReq
 	liveEvery := vfEnvInt("VERIF_C06_LIVE_EVERY", 1)
 	vfEachLine(t, "", func(line []byte) {
@@ -470,7 +588,7 @@ func TestVerifC06Cookie(t *testing.T) {
 			if !v.Octets || v.MaxAge != 0 || v.Expire != "none" || v.SameSite != 0 || v.Partitioned {
 				nontriv++
 			}
-			c06Resp(&v, evals)
+			c06Resp(&v, evals, &dirtyCookie)
 		case "req":
 			nreq++
 			if !v.Octets || len(v.Ops) > 1 {
